@@ -5,6 +5,7 @@
 #include "inc/CmapCache.h"
 #include "inc/Silf.h"
 #include <functional>
+#include "lz4ref.h"
 
 namespace ref {
 static uint16_t u16(const uint8_t *p) { return uint16_t((p[0] << 8) | p[1]); }
@@ -70,18 +71,62 @@ struct Cmap {
 
 struct CmapSweep {
     unsigned long evals = 0, mapped = 0;
-    unsigned nseg = 0, nranged = 0, ngroups = 0;
+    unsigned nseg = 0, nranged = 0, ngroups = 0, npseudo = 0;
     bool loaded = false, nontrivial = false;
     std::map<std::string, std::pair<unsigned long, uint32_t>> fails;    // label -> (count, first usv)
     void fail(const char *l, uint32_t usv) { auto &e = fails[l]; if (!e.first++) e.second = usv; }
     std::string json() const {
         std::string s = "{\"loaded\":" + std::to_string(int(loaded)) + ",\"evaluations\":" + std::to_string(evals) + ",\"mapped\":" + std::to_string(mapped) + ",\"segs\":" + std::to_string(nseg) +
-                        ",\"ranged\":" + std::to_string(nranged) + ",\"groups\":" + std::to_string(ngroups) + ",\"nontrivial\":" + std::to_string(int(nontrivial)) + ",\"fails\":{";
+                        ",\"ranged\":" + std::to_string(nranged) + ",\"groups\":" + std::to_string(ngroups) + ",\"pseudos\":" + std::to_string(npseudo) + ",\"nontrivial\":" + std::to_string(int(nontrivial)) + ",\"fails\":{";
         bool first = true;
         for (auto &kv : fails) { if (!first) s += ","; first = false; s += "\"" + kv.first + "\":{\"count\":" + std::to_string(kv.second.first) + ",\"first\":" + std::to_string(kv.second.second) + "}"; }
         return s + "}}";
     }
 };
+
+namespace ref {
+// The pseudo-glyph map of the first Silf subtable, read by my own parser (never through the library): code point -> glyph.
+struct Pseudo {
+    std::vector<std::pair<uint32_t, uint16_t>> map;
+    bool ok = false;
+    bool load(const uint8_t *t, size_t n) {
+        std::vector<uint8_t> plain;
+        if (n < 8) return false;
+        uint32_t ver = u32(t);
+        if (ver >= 0x00050000 && (u32(t + 4) >> 27) == 1) {          // compressed layout: version, scheme << 27 | size, LZ4 block
+            size_t want = u32(t + 4) & 0x07FFFFFF;
+            lz4ref::decode(t + 8, n - 8, plain, want);
+            if (plain.size() != want || want < 8) return false;
+            t = plain.data(); n = plain.size(); ver = u32(t);
+        }
+        size_t hp = ver >= 0x00030000 ? 8 : 4;
+        if (hp + 4 + 4 > n) return false;
+        unsigned nsub = u16(t + hp);
+        if (!nsub) return false;
+        size_t off = u32(t + hp + 4);
+        size_t p = off + (ver >= 0x00030000 ? 8 : 0);                // ruleVersion, passOffset, pseudosOffset
+        if (p + 20 > n) return false;
+        unsigned npass = t[p + 6];
+        unsigned njust = t[p + 19];
+        size_t q = p + 20 + 8 * size_t(njust);                       // numLigComp(2) numUser(1) maxComp(1) dir(1) attColl(1) reserved(3) numCrit(1)
+        if (q + 10 > n) return false;
+        unsigned ncrit = t[q + 9];
+        q += 10 + 2 * size_t(ncrit) + 1;                             // critical features, reserved
+        if (q + 1 > n) return false;
+        unsigned nscript = t[q];
+        q += 1 + 4 * size_t(nscript) + 2;                            // script tags, lbGID
+        q += 4 * (size_t(npass) + 1);                                // pass offsets
+        if (q + 8 > n) return false;
+        unsigned np = u16(t + q);
+        q += 8;
+        if (q + 6 * size_t(np) > n) return false;
+        for (unsigned i = 0; i < np; ++i) map.push_back({u32(t + q + 6 * i), u16(t + q + 6 * i + 4)});
+        ok = true;
+        return true;
+    }
+    uint16_t lookup(uint32_t usv) const { for (auto &e : map) if (e.first == usv) return e.second; return 0; }
+};
+} // namespace ref
 
 // note(usv): called before each code point so that a sanitizer abort can name it
 // stride > 1: above the BMP visit only every stride-th code point plus everything within 3 of a format-12 group boundary
@@ -99,6 +144,9 @@ inline void sweep_font(const std::vector<uint8_t> &font, CmapSweep &out, const s
     ref::Cmap rc;
     if (!raw.find(0x636D6170, off, len) || !rc.load(font.data() + off, len)) { out.fail("reference-cannot-parse-accepted-cmap", 0); return; }
     out.nseg = rc.nseg; out.nranged = rc.nranged; out.ngroups = rc.ngroups;
+    ref::Pseudo rp;
+    { size_t so, sl; if (raw.find(0x53696C66, so, sl)) rp.load(font.data() + so, sl); }
+    out.npseudo = rp.ok ? unsigned(rp.map.size()) : 0;
     out.nontrivial = rc.nseg >= 3 && (rc.nranged || rc.f12);
     const graphite2::Cmap &dc = direct.face->cmap(), &cc = cached.face->cmap();
     auto one = [&](uint32_t usv) {
@@ -110,7 +158,9 @@ inline void sweep_font(const std::vector<uint8_t> &font, CmapSweep &out, const s
         if (c != r) out.fail("cached-lookup-differs-from-opentype-reference", usv);
         if (c != d) out.fail("cached-differs-from-direct", usv);
         int sup = gr_face_is_char_supported(direct.face, usv, 0);
-        int pseudo = direct.face->findPseudo(usv) != 0;
+        uint16_t pg = rp.lookup(usv);
+        if (rp.ok && direct.face->findPseudo(usv) != pg) out.fail("pseudo-glyph-lookup-differs-from-silf-table", usv);
+        int pseudo = rp.ok ? pg != 0 : direct.face->findPseudo(usv) != 0;
         if (sup != int(r != 0 || pseudo)) out.fail("is_char_supported-disagrees-with-cmap", usv);
         if (gr_face_is_char_supported(cached.face, usv, 0) != sup) out.fail("is_char_supported-differs-between-cmap-paths", usv);
     };
